@@ -740,6 +740,7 @@ import (
 	"os"
 	"runtime"
 	"strings"
+	"time"
 )
 
 type vCexVal struct {
@@ -841,6 +842,16 @@ func vReply[T any](ch chan T, v T)       {}
 func vGoMode(name, mode string)          {}
 func vRunTasks()                         {}
 func vLocksHeld() bool                   { return false }
+func vCompletes(f func()) bool {
+	done := make(chan struct{})
+	go func() { defer close(done); f() }()
+	select {
+	case <-done:
+		return true
+	case <-time.After(3 * time.Second):
+		return false
+	}
+}
 func vJoin(f func()) {
 	done := make(chan struct{})
 	go func() { defer close(done); f() }()
